@@ -2,9 +2,37 @@
    unit, list, prod, sumbool, sumor mapped to OCaml's; andb/orb/negb/fst/snd inlined); nat, Z, positive,
    string, Flocq floats stay extracted datatypes; no Extract Constant of our own. *)
 From Coq Require Import ExtrOcamlBasic.
-From Coq Require Import List ZArith.
-From CF Require Import Base.Mem Model.Tables Model.SimdApi Model.Kernels Model.Sym.
+From Coq Require Import List ZArith String.
+From CF Require Import Base.Mem Model.Tables Model.TableSem Model.Prim Model.SimdApi Model.Kernels Model.Sym
+     Model.Regs Model.Exports Model.Safe.
+From CF Require Import Gen.GenExports Gen.GenSafe Gen.GenMacros Gen.GenDispatch.
+(* the export table without its (long) identifier strings: row i of GenExports.exports *)
+Definition export_keys : list (ty * reg * kernel) :=
+  Eval vm_compute in map (fun e => (e_ty e, e_reg e, e_op e)) exports.
+Definition run_key_int (k : ty * reg * kernel) :=
+  let '(t, r, op) := k in
+  run_export_int {| e_macro := EmptyString; e_module := EmptyString; e_modcfg := EmptyString; e_ty := t;
+                    e_reg := r; e_op := op; e_xconst := EmptyString; e_xany := EmptyString; e_feats := nil |}.
+Definition run_key_f32 (k : ty * reg * kernel) :=
+  let '(t, r, op) := k in
+  run_export_f32 {| e_macro := EmptyString; e_module := EmptyString; e_modcfg := EmptyString; e_ty := t;
+                    e_reg := r; e_op := op; e_xconst := EmptyString; e_xany := EmptyString; e_feats := nil |}.
+Definition run_key_f64 (k : ty * reg * kernel) :=
+  let '(t, r, op) := k in
+  run_export_f64 {| e_macro := EmptyString; e_module := EmptyString; e_modcfg := EmptyString; e_ty := t;
+                    e_reg := r; e_op := op; e_xconst := EmptyString; e_xany := EmptyString; e_feats := nil |}.
+(* per safe entry i of GenSafe.safe_entries: its two cores (Const, Any), names resolved inside Coq *)
+Definition safe_cores : list (option safe_core * option safe_core) :=
+  Eval vm_compute in map (fun s => (core_of exports safe_macros s Const, core_of exports safe_macros s Any))
+                         safe_entries.
+Definition the_chain : list chain_entry := Eval vm_compute in dispatch_chain.
+Definition run_safe_int := run_safe_core the_chain run_export_int.
+Definition run_safe_f32 := run_safe_core the_chain run_export_f32.
+Definition run_safe_f64 := run_safe_core the_chain run_export_f64.
 Extraction Language OCaml.
 Cd "../.build/ocaml".
-Extraction "model.ml" sym_run all_kernels.
+Extraction "model.ml" sym_run all_kernels export_keys run_key_int run_key_f32 run_key_f64
+           safe_cores run_safe_int run_safe_f32 run_safe_f64 select_chain the_chain
+           f32_of_bits f64_of_bits bits_of_f32 bits_of_f64 int_ops f32_ops f64_ops int_math float_math
+           width int_signed.
 Cd "../../coq".
